@@ -27,14 +27,14 @@ def lib_class(cls):
     H, P = _mods()
     return {"Point": P.Point, "PointPair": P.PointPair, "Polygon": P.Polygon, "Transformation": P.Transformation,
             "HPoint": H.Point, "Geodesic": H.Geodesic, "Segment": H.Segment, "Tangent": H.TangentVector,
-            "HPolygon": H.Polygon, "Isometry": H.Isometry}[cls]
+            "HPolygon": H.Polygon, "Isometry": H.Isometry, "Horosphere": H.Horosphere, "HoroArc": H.HorosphereArc}[cls]
 
 
 UNIT_RANK = {"Point": 1, "HPoint": 1}
 AUX_RANK = {"Polygon": 3, "HPolygon": 3, "Segment": 2, "Tangent": 2}
 PROJ = {"Point", "PointPair", "Polygon", "Transformation"}
 ALL_CLASSES = ["Point", "HPoint", "PointPair", "Geodesic", "Segment", "Tangent", "Polygon", "HPolygon",
-               "Transformation", "Isometry"]
+               "Transformation", "Isometry", "Horosphere", "HoroArc"]
 
 
 def tclass(cls):
@@ -54,6 +54,7 @@ class Tables:
         self.trans = {}     # dim -> list of matrices
         self.gram = {}      # dim -> K x K x 3 integer array
         self.sl2 = None
+        self.sl2c = None
         self.eig = {}       # dim -> dict(lam, mu, mats): transformations with a repeated eigenvalue
         self.K = None
         self.whole = {}
@@ -94,6 +95,8 @@ def absorb_units(tabs, dim, r):
         tabs.gram[o["dim"]] = np.array(o["gram"], dtype=float)
     for o in _prefixed(r.stdout, "EIG "):
         tabs.eig[o["dim"]] = dict(lam=float(o["lam"]), mu=float(o["mu"]), mats=[np.array(m, dtype=float) for m in o["mats"]])
+    for o in _prefixed(r.stdout, "SL2C "):
+        tabs.sl2c = [np.array([[complex(e[0], e[1]) for e in row] for row in m]) for m in o]
     for o in _prefixed(r.stdout, "SL2 "):
         tabs.sl2 = [np.array(m, dtype=float) for m in o]
     if dim not in tabs.trans or dim not in tabs.gram or tabs.sl2 is None or dim not in tabs.eig:
@@ -197,7 +200,11 @@ def build(tabs, cls, dim, shape, ids, route="array", neg=(), scale=None):
         us = unit_shape(tabs, cls, dim)
         flat = data.reshape((-1,) + us)
         for p in neg:
-            flat[p - 1] *= -1
+            if route == "negrow":          # only the first row of the unit (one end point / vertex)
+                blk = flat[p - 1]
+                (blk if blk.ndim == 1 else blk[0])[...] *= -1
+            else:
+                flat[p - 1] *= -1
         data = flat.reshape(shape + us).copy()
     if route == "intdata":             # the payloads are integers: an integer-typed array holds them exactly
         data = np.rint(data).astype(np.int64)
@@ -207,7 +214,7 @@ def build(tabs, cls, dim, shape, ids, route="array", neg=(), scale=None):
         big = np.zeros(data.shape[:-1] + (2 * data.shape[-1] + 1,))
         big[..., 1::2] = data[::-1]
         data = big[1::2][::-1] if data.ndim == 1 else big[::-1, ..., 1::2]
-    if route in ("array", "negarray", "intdata", "fortran", "strided") or (route == "list" and len(shape) == 0):
+    if route in ("array", "negarray", "negrow", "intdata", "fortran", "strided") or (route == "list" and len(shape) == 0):
         return C(data), [data]
     if route == "object":
         return C(C(data)), [data]
@@ -253,11 +260,8 @@ def rows_dev(cls_whole, A, E):
 
 
 def der_dev(cls, A, E):
-    """derived data: A actual (size, auxshape...), E expected (size, auxshape...)"""
-    if cls == "Segment":          # unordered pair of ideal endpoints
-        d1 = proj_dev(A, E).max(-1)
-        d2 = proj_dev(A, E[:, ::-1, :]).max(-1)
-        return np.minimum(d1, d2)
+    """derived data: A actual (size, auxshape...), E expected (size, auxshape...); row by row (a segment's two ideal
+    endpoints are ordered: first the one beyond end point 0)"""
     s = A.shape[0]
     return proj_dev(A.reshape(s, -1, A.shape[-1]), E.reshape(s, -1, E.shape[-1])).max(-1)
 
